@@ -7,6 +7,7 @@ import (
 	"go/token"
 	"go/types"
 	"math/big"
+	"strings"
 
 	"golang.org/x/tools/go/ssa"
 )
@@ -148,6 +149,30 @@ func (x *Exec) named(st *State, v Val, hint string) Val {
 	return nv
 }
 
+// entryRefFacts: a reference read from heap state that has not been written
+// since function entry points to an object that existed at entry.
+func (x *Exec) entryRefFacts(v Val) *Term {
+	if v.T == nil || v.A != nil {
+		return TrueT
+	}
+	var facts []*Term
+	ls := x.tc.leaves(v.T)
+	for i, l := range ls {
+		if i >= len(v.L) || l.S.K != SInt {
+			continue
+		}
+		isRef := l.Path == "ref" || strings.HasSuffix(l.Path, ".ref") || (l.T != nil && isRefLike(l.T))
+		if !isRef {
+			continue
+		}
+		t := v.L[i]
+		if t.Op == "select" && t.Args[0].Op == "var" && strings.HasSuffix(t.Args[0].Name, "@0") {
+			facts = append(facts, Lt(t, Var("brk@0", IntS)))
+		}
+	}
+	return And(facts...)
+}
+
 func (x *Exec) and(ts ...*Term) *Term { return And(ts...) }
 
 func (x *Exec) idxBig(v *big.Int) *Term {
@@ -283,6 +308,7 @@ func (x *Exec) unop(st *State, fr *Frame, v *ssa.UnOp) {
 		val := x.loadAddr(st, ad)
 		if ad.K != ALocal {
 			st.assume(x.typeInv(val, st))
+			st.assume(x.entryRefFacts(val))
 			val.Src = ad
 		}
 		st.regs[v] = val
